@@ -72,11 +72,12 @@ func init() {
 			{Fn: "H_special", Tier: "quick", Reach: []string{"end"}},
 			{Fn: "H_pairs", Tier: "quick", Reach: []string{"end"}},
 			{Fn: "H_signed_literals", Fuel: 30_000_000, Tier: "quick", Reach: []string{"end"}},
+			{Fn: "H_casts", Fuel: 30_000_000, Tier: "quick", Reach: []string{"end"}},
 			{Fn: "H_triples", Tier: "thorough", Reach: []string{"end"}},
 		},
-		Rule:        rule + "; all ordered pairs (quick) and triples (thorough) of the 23 binary operators of the table plus 38 unary/ternary/??/assignment/concatenation forms and 4 shapes x 23 operators of sign-fused number literals (`$a -3 * $c`, `$a-3*$c`, `-2 ** $c`, `$a B -2 ** $c`); each is printed with minimal and with full parentheses, both parsed by the real parser and evaluated on symbolic 64-bit ints: two different parse trees are separated by a solver-chosen operand assignment",
+		Rule:        rule + "; all ordered pairs (quick) and triples (thorough) of the 23 binary operators of the table plus 38 unary/ternary/??/assignment/concatenation forms and 4 shapes x 23 operators of sign-fused number literals (`$a -3 * $c`, `$a-3*$c`, `-2 ** $c`, `$a B -2 ** $c`) and 5 cast shapes x 2 casts x 23 operators (`(T)$a B $c`, `$a B (T)$c`, `-(T)$a B $c`, `(T)-$a B $c`, `!(T)$a B $c`); each is printed with minimal and with full parentheses, both parsed by the real parser and evaluated on symbolic 64-bit ints: two different parse trees are separated by a solver-chosen operand assignment",
 		Assumptions: []string{"operands are ints (concrete pool {0,1,2,3,-1} where ** or . is involved: math.Pow / number formatting are not encoded)", "chains inside the non-associative comparison/equality classes are not part of the table"},
-		Outside:     []string{"casts (need package std)", "depth 4-5 trees", "float/bool/string operands"},
+		Outside:     []string{"the conversion performed by the cast functions of package std (casts are checked for their place in the parse tree with stand-in bool/int conversion functions registered under the names the cast syntax resolves)", "depth 4-5 trees", "float/bool/string operands"},
 	})
 
 	reg(Check{
